@@ -161,7 +161,7 @@ class H:
     """one harness: which real functions go under the solver, which are environment stubs, and how cbmc is run"""
     def __init__(s, name, file, entries, stubs=(), noglobal=(), icall_only=(), blocking=(), visible=(), seq=False, nt=2, heap=1024, pagewords=32,
                  defines=(), cbmc=(), mode='all', witness='inline', tiers=('quick', 'thorough'), timeout=600, symbolic=True, note='', nsw=False,
-                 unwind=None, unwindset=None, mem_gb=24, extra_tus=(), backend=None, flat=True, expect_fail=(), stack_extra=0, weak_cas=False, prune_init=True, probes=None):
+                 unwind=None, unwindset=None, mem_gb=24, extra_tus=(), backend=None, flat=True, expect_fail=(), stack_extra=0, weak_cas=False, prune_init=True, probes=None, witness_any=False):
         s.__dict__.update(locals()); del s.__dict__['s']
 
 def translate(h, wd):
@@ -360,6 +360,7 @@ def run_harness(h, tier, outdir):
             if not wit: res['witness_ok'] = False; res['error'] = 'no witness assertion in harness'
             else:
                 bad = [p['desc'] for p in wit if p['status'] != 'FAILURE']
+                if h.witness_any and len(bad) < len(wit): bad = []     # alternative end points: one reachable witness suffices
                 res['witness_ok'] = not bad and res.get('witness_ok') is not False
                 res['witnesses'] = [dict(desc=p['desc'], reachable=(p['status'] == 'FAILURE')) for p in wit]
                 if bad: res['error'] = 'vacuous: witness not reachable: %s' % bad
